@@ -164,6 +164,30 @@ func (fx *FnExec) extern(st *State, in *ssa.Call, fn *ssa.Function, args []Val, 
 		eng.heapSet(st, setHeap, store(eng.heapGet(st, setHeap), ref, "((as const (Array Str Bool)) false)"))
 		k(st, []Val{{T: ref, S: SInt, GT: in.Type()}})
 	default:
+		// a function outside the package whose parameters and results are all of basic type cannot reach
+		// any memory of the model: unconstrained results, nothing else changes
+		sig := fn.Signature
+		basic := func(t *types.Tuple) bool {
+			for i := 0; i < t.Len(); i++ {
+				if _, ok := t.At(i).Type().Underlying().(*types.Basic); !ok {
+					return false
+				}
+			}
+			return true
+		}
+		if sig.Recv() == nil && !sig.Variadic() && basic(sig.Params()) && basic(sig.Results()) && sig.Results().Len() > 0 {
+			fx.trust("extern " + name + ": no assumed contract; parameters and results are of basic type, so it cannot touch modelled memory; results unconstrained")
+			var res []Val
+			for i := 0; i < sig.Results().Len(); i++ {
+				t := sig.Results().At(i).Type()
+				srt := eng.sorts.sortOf(t)
+				n := eng.fresh(st, "ext_"+fn.Name(), srt)
+				st.assume(eng.sorts.typeInv(t, n))
+				res = append(res, Val{T: n, S: srt, GT: t})
+			}
+			k(st, res)
+			return
+		}
 		fx.unsupp("no assumed contract for external function %s", name)
 	}
 }
